@@ -80,9 +80,8 @@ func pruneAryNulls(ary *partialArray) *partialArray {
 	newAry := []*lazyNode{}
 
 	for _, v := range *ary {
-		if v != nil {
-			pruneNulls(v)
-		}
+		// RFC 7396: an array in a patch replaces the target value verbatim;
+		// null members of objects inside it are data, not deletions.
 		newAry = append(newAry, v)
 	}
 
